@@ -168,8 +168,15 @@ func (h *BMPPeerHeader) Serialize() ([]byte, error) {
 	}
 	binary.BigEndian.PutUint32(buf[26:30], h.PeerAS)
 	copy(buf[30:34], h.PeerBGPID.AsSlice())
+	// Round to the nearest microsecond: the float64 sum built by
+	// DecodeFromBytes is rarely exact, and rounding up turned N into N+1
+	// microseconds (and 999999 into 1000000) on every re-serialization.
 	t1, t2 := math.Modf(h.Timestamp)
-	t2 = math.Ceil(t2 * math.Pow10(6))
+	t2 = math.Round(t2 * math.Pow10(6))
+	if t2 >= math.Pow10(6) {
+		t1++
+		t2 -= math.Pow10(6)
+	}
 	binary.BigEndian.PutUint32(buf[34:38], uint32(t1))
 	binary.BigEndian.PutUint32(buf[38:42], uint32(t2))
 	return buf, nil
